@@ -5,7 +5,7 @@ import ast
 
 from sa.astx import call_attr, call_name, dotted, src, walk_local
 from sa.selftest import Mutant, Silent
-from sa.props._lib_j import all_paths, edge_asserts, local_defs, no_exc, node_calls, normal_exits, params, resolve, rsrc
+from sa.props._lib_j import body_always_entered, run_sections, all_paths, edge_asserts, local_defs, no_exc, node_calls, normal_exits, params, resolve, rsrc
 
 PROPERTY = "C52"
 FP = "python/filepath.py"
@@ -22,6 +22,7 @@ EXPLANATION = (
     "yields a sibling (same directory) whose name contains _secureEnoughString() and is opened with O_EXCL (requireCreate -> "
     "create()); _getFilename is executed symbolically on every path: temporary and final name differ for all inputs. "
     "Not decided: atomicity of rename itself, fsync/durability."
+    "Every anchor function is also checked to be entered on every call (no memoising/wrapping decorator, duplicate definition or rebinding). "
 )
 ASSUMPTIONS = ["os.rename within one directory is atomic", "a with block closes (flushes) the file on exit"]
 FS_MUTATORS = {"open", "_open", "unlink", "remove", "rename", "replace", "truncate", "setContent", "moveTo", "copyTo", "touch", "rmtree", "fdopen",
@@ -89,13 +90,14 @@ def _replace_rules(ctx, f, g, q, *, opens, final_texts, temp_text, platform_ok, 
         ctx.ok("replace/no-other-mutation", q)
 
 
-def check(ctx):
+def _s_setcontent(ctx, S):
     # ================= FilePath.setContent =================================================================
     f = ctx.func(FP, "FilePath.setContent")
     g = ctx.cfg(f)
     opens = node_calls(g, lambda c: call_attr(c) in ("open", "_open", "create", "fdopen"))
     ctx.check(len(opens) == 1, "replace/single-writable-open", QS, f"setContent opens {len(opens)} files (exactly one - the temporary - expected)")
-    ctx.need(opens, "an open() in setContent")
+    if not opens:
+        return      # the violation above is the verdict
     on, oc = opens[0]
     recv = rsrc(oc.func.value, f) if isinstance(oc.func, ast.Attribute) else ""
     ext = params(f)[2]
@@ -110,6 +112,9 @@ def check(ctx):
                    temp_text=f"self.temporarySibling({ext}).path",
                    platform_ok=lambda t: t == "platform.isWindows()", what="setContent")
 
+
+
+def _s_temporary(ctx, S):
     # temporarySibling
     cands = [x for x in ctx.mod(FP).find_all("FilePath.temporarySibling") if isinstance(x, ast.FunctionDef) and not any(dotted(d) == "overload" for d in x.decorator_list)]
     ctx.need(cands, "FilePath.temporarySibling implementation")
@@ -138,6 +143,9 @@ def check(ctx):
         okc = bool(rc) and all(not c.args or src(c.args[0]) == "True" for _, c in rc) and all(gt.must_pass([gt.entry], [n for n, _ in rc], exc=False) is None for _ in [0])
         ctx.check(okc, "temporary/exclusive-create", qt,
                   "the temporary is not marked requireCreate(): it would be opened with truncation instead of O_EXCL and could clobber an existing file")
+
+
+def _s_exclusive_open(ctx, S):
     fo = ctx.func(FP, "FilePath.open")
     go = ctx.cfg(fo)
     cr = node_calls(go, lambda c: call_name(c) == "self.create")
@@ -157,12 +165,13 @@ def check(ctx):
     ctx.check(any(isinstance(c, ast.Call) and call_name(c) == "os.open" and len(c.args) == 2 and src(c.args[0]) == "self.path" and src(c.args[1]) == "_CREATE_FLAGS" for c in ast.walk(fc)),
               "temporary/exclusive-create", "twisted.python.filepath.FilePath.create", "create() does not os.open(self.path, _CREATE_FLAGS)")
 
+
+
+def _s_save(ctx, S):
     # ================= sob.Persistent =========================================================================
     fs = ctx.func(SOB, "Persistent.save")
     gs = ctx.cfg(fs)
     q = QP + ".save"
-    st_ = ctx.func(SOB, "Persistent._saveTemp")
-    gf = ctx.func(SOB, "Persistent._getFilename")
     # names
     unpack = [n for n in walk_local(fs) if isinstance(n, ast.Assign) and isinstance(n.value, ast.Call) and call_name(n.value) == "self._getFilename"
               and isinstance(n.targets[0], ast.Tuple) and len(n.targets[0].elts) == 2]
@@ -171,18 +180,8 @@ def check(ctx):
     saves = node_calls(gs, lambda c: call_name(c) == "self._saveTemp")
     ctx.check(len(saves) == 1 and src(saves[0][1].args[0]) == TEMP if saves else False, "replace/write-only-to-temporary", ctx.construct(q, "self._saveTemp(<temporary>, dumpFunc)"),
               "save() dumps the application into something other than the temporary name: a crash while pickling leaves a truncated file under the final name")
-    ctx.need(saves, "self._saveTemp(...) in save")
-    # _saveTemp opens exactly its argument for writing inside with
-    pst = params(st_)
-    so = [c for c in walk_local(st_) if isinstance(c, ast.Call) and call_attr(c) in ("open", "_open")]
-    ok = len(so) == 1 and src(so[0].args[0]) == pst[1] and _writes_in_mode(so[0]) and isinstance(getattr(so[0], "_parent", None), ast.withitem)
-    ctx.check(ok, "replace/handle-closed-by-with", QP + "._saveTemp", "_saveTemp does not open exactly its filename argument for writing inside a with block")
-    dump = [c for c in walk_local(st_) if isinstance(c, ast.Call) and isinstance(c.func, ast.Name) and c.func.id == pst[2]]
-    ctx.check(len(dump) == 1 and len(dump[0].args) == 2 and src(dump[0].args[0]) == "self.original" and any(isinstance(a, ast.With) for a in _ancestors(dump[0], st_)),
-              "replace/content-written-once", QP + "._saveTemp", "_saveTemp does not dump self.original once into the open handle")
-    other = [c for c in walk_local(st_) if isinstance(c, ast.Call) and call_attr(c) in FS_MUTATORS and c not in so]
-    ctx.check(not other, "replace/no-other-mutation", QP + "._saveTemp", f"_saveTemp also performs {[src(c) for c in other]}")
-
+    if not saves:
+        return      # the violation above is the verdict
     sn, sc = saves[0]
     # reuse the shared rules with the _saveTemp call standing for the (closed) write
     renames = node_calls(gs, lambda c: call_name(c) in RENAMES)
@@ -207,6 +206,10 @@ def check(ctx):
     extra = [c for c in walk_local(fs) if isinstance(c, ast.Call) and id(c) not in known and (call_attr(c) in FS_MUTATORS or call_name(c) == "self._saveTemp")]
     ctx.check(not extra, "replace/no-other-mutation", q, f"save() also performs {[src(c) for c in extra]}")
 
+
+
+def _s_getfilename(ctx, S):
+    gf = ctx.func(SOB, "Persistent._getFilename")
     # _getFilename: per-path symbolic evaluation -> (final, temporary) always differ
     gg = ctx.cfg(gf)
     npaths = 0
@@ -233,6 +236,32 @@ def check(ctx):
                   f"(a crash while pickling destroys the only copy)")
         ctx.check(_same_dir(fin, tmp), "names/temporary-in-same-directory", where, f"temporary {src(tmp)} is not derived from the final name {src(fin)} (rename may cross directories)")
     ctx.floor("names/temporary-differs-from-final", npaths, 3, "paths through _getFilename")
+
+
+def _s_savetemp(ctx, S):
+    st_ = ctx.func(SOB, "Persistent._saveTemp")
+    # _saveTemp opens exactly its argument for writing inside with
+    pst = params(st_)
+    so = [c for c in walk_local(st_) if isinstance(c, ast.Call) and call_attr(c) in ("open", "_open")]
+    ok = len(so) == 1 and src(so[0].args[0]) == pst[1] and _writes_in_mode(so[0]) and isinstance(getattr(so[0], "_parent", None), ast.withitem)
+    ctx.check(ok, "replace/handle-closed-by-with", QP + "._saveTemp", "_saveTemp does not open exactly its filename argument for writing inside a with block")
+    dump = [c for c in walk_local(st_) if isinstance(c, ast.Call) and isinstance(c.func, ast.Name) and c.func.id == pst[2]]
+    ctx.check(len(dump) == 1 and len(dump[0].args) == 2 and src(dump[0].args[0]) == "self.original" and any(isinstance(a, ast.With) for a in _ancestors(dump[0], st_)),
+              "replace/content-written-once", QP + "._saveTemp", "_saveTemp does not dump self.original once into the open handle")
+    other = [c for c in walk_local(st_) if isinstance(c, ast.Call) and call_attr(c) in FS_MUTATORS and c not in so]
+    ctx.check(not other, "replace/no-other-mutation", QP + "._saveTemp", f"_saveTemp also performs {[src(c) for c in other]}")
+
+
+def _s_body(ctx, S):
+    why = "the replace protocol (write temporary, close, rename) lives in this body; a wrapper that answers without running it, or runs it twice, voids the path rules"
+    body_always_entered(ctx, FP, ["FilePath.setContent", "FilePath.temporarySibling", "FilePath.open", "FilePath.create"], "anchor/body-entered-on-every-call",
+                        "twisted.python.filepath", why)
+    body_always_entered(ctx, SOB, ["Persistent.save", "Persistent._saveTemp", "Persistent._getFilename"], "anchor/body-entered-on-every-call", "twisted.persisted.sob", why)
+
+
+def check(ctx):
+    run_sections(ctx, [("setContent", _s_setcontent), ("temporarySibling", _s_temporary), ("exclusive-open", _s_exclusive_open), ("Persistent.save", _s_save),
+                       ("Persistent._saveTemp", _s_savetemp), ("Persistent._getFilename", _s_getfilename), ("body-entered", _s_body)])
 
 
 def _parts(e):
